@@ -48,14 +48,15 @@ def cli_listing_recognised():
     parser, the printed form has changed and CLI listings are not judged (the API listings still are)."""
     if "ok" not in _CLI_FORMAT:
         from .peers import tape as RT, diskbasic as RD
-        from .world import World
+        from .world import SimWorld
         ok = True
+        collecting, SimWorld.instances = SimWorld.instances, None     # not part of any run the fidelity self-test compares
         try:
             f = {"name": "HELLO", "ext": "BIN", "ftype": 2, "dtype": 0, "gap": 0, "load": 0x0E00, "exec": 0x0E01, "data": b"\x12\x34\x39"}
             img = RD.blank()
             RD.save(img, f)
             for key, data in (("golden.cas", RT.write_file(f)), ("golden.dsk", bytes(img))):
-                w = World()
+                w = SimWorld()
                 w.put(key, data, who="SETUP")
                 r = w.invoke("file_util", [key, "--list"])
                 got = _parse(r.stdout)
@@ -64,6 +65,8 @@ def cli_listing_recognised():
                     ok = False
         except Exception:       # noqa - a tree on which even the golden listing fails is judged by the other routes
             ok = False
+        finally:
+            SimWorld.instances = collecting
         _CLI_FORMAT["ok"] = ok
     return _CLI_FORMAT["ok"]
 
